@@ -381,6 +381,110 @@ fn corpus() -> Vec<(Met, usize, f64, Vec<Vec<f64>>, EpsMode)> {
     c
 }
 
+fn next_up(x: f64) -> f64 {
+    if x.is_nan() || x == f64::INFINITY { return x; }
+    if x == 0.0 { return f64::from_bits(1); }
+    let b = x.to_bits();
+    f64::from_bits(if x > 0.0 { b + 1 } else { b - 1 })
+}
+fn next_down(x: f64) -> f64 { -next_up(-x) }
+
+/// a fixed-parameter dataset of a targeted stream
+struct Spec { m: Met, minpts: usize, eps: f64, x: Vec<Vec<f64>>, mode: EpsMode, stream: &'static str, exact: bool }
+
+/// targeted streams (small n, each aimed at one boundary of the property):
+///  ulp_border     - the tolerance is a computed inter-point distance t, the next float above t, the next below t:
+///                   the strict comparison of computed reduced distances flips between them;
+///  duplicates     - every point occurs 2-3 times (distance +0 between copies), tolerance at the smallest positive
+///                   distance (copies only inside) / above it / so small that the squared tolerance underflows to +0;
+///  minpts_extreme - min_points in {2, n-1, n, n+1} with a tolerance that covers everything, or that equals the
+///                   largest distance (the farthest pairs miss each other by the strict comparison);
+///  shared_border  - a chain of one-core-point clusters ("stars": a centre with 1-2 private satellites) whose
+///                   neighbouring centres share one border point; min_points = size of an inner centre's
+///                   neighbourhood, so a core test that discounts already labelled neighbours loses clusters.
+fn targeted(r: &mut Sm64) -> Vec<Spec> {
+    let mut v: Vec<Spec> = Vec::new();
+    let mets3 = [Met::L2, Met::L1, Met::Linf];
+    // ---- ulp_border ----
+    for k in 0..12u64 {
+        let d = 1 + (k % 3) as usize;
+        let n = 5 + r.below(7) as usize;
+        let m = mets3[(k % 3) as usize];
+        let fam = *r.pick(&[0u64, 3, 5, 6]);
+        let x = gen_points(r, fam, n, d);
+        let minpts = 2 + r.below(3) as usize;
+        let p = r.below(n as u64) as usize;
+        let mut dp: Vec<f64> = (0..n).filter(|&j| j != p).map(|j| dist_of(m, &x[p], &x[j])).filter(|&t| t > 0.0).collect();
+        dp.sort_by(|a, b| a.partial_cmp(b).unwrap());
+        if dp.is_empty() { continue; }
+        let t = dp[std::cmp::min(dp.len() - 1, minpts - 2 + r.below(2) as usize)];
+        for e in [t, next_up(t), next_down(t)] {
+            v.push(Spec { m, minpts, eps: e, x: x.clone(), mode: EpsMode::Explicit, stream: "ulp_border", exact: false });
+        }
+    }
+    // ---- duplicates ----
+    for k in 0..14u64 {
+        let d = 1 + (k % 2) as usize;
+        let m = mets3[(k % 3) as usize];
+        let nb = 2 + r.below(4) as usize;
+        let fam = *r.pick(&[0u64, 3, 6]);
+        let base = gen_points(r, fam, nb, d);
+        let mut x: Vec<Vec<f64>> = Vec::new();
+        for b in base.iter() {
+            for _ in 0..(2 + r.below(2)) { x.push(b.clone()); }
+        }
+        r.shuffle(&mut x);
+        let n = x.len();
+        let mut all: Vec<f64> = Vec::new();
+        for i in 0..n { for j in 0..i { let t = dist_of(m, &x[i], &x[j]); if t > 0.0 { all.push(t); } } }
+        all.sort_by(|a, b| a.partial_cmp(b).unwrap());
+        let smallest = if all.is_empty() { 1.0 } else { all[0] };
+        let (eps, exact) = match k % 4 {
+            0 => (smallest, false),                 // copies only: the nearest distinct point is on the border
+            1 => (smallest * 1.5, true),
+            2 => (1e-200, m != Met::L2),             // L2: the squared tolerance underflows to +0, nothing is inside
+            _ => (next_up(smallest), false),
+        };
+        v.push(Spec { m, minpts: 2 + r.below(3) as usize, eps, x, mode: EpsMode::Explicit, stream: "duplicates", exact });
+    }
+    // ---- minpts_extreme ----
+    for k in 0..24u64 {
+        let n = 2 + r.below(9) as usize;
+        let d = 1 + (k % 2) as usize;
+        let m = mets3[(k % 3) as usize];
+        let fam = *r.pick(&[0u64, 3, 4, 6]);
+        let x = gen_points(r, fam, n, d);
+        let mut mx = 0.0f64;
+        for i in 0..n { for j in 0..i { mx = mx.max(dist_of(m, &x[i], &x[j])); } }
+        let minpts = std::cmp::max(2, match k % 4 { 0 => 2, 1 => n.saturating_sub(1), 2 => n, _ => n + 1 });
+        let (eps, exact) = if k % 8 < 4 || !(mx > 0.0) { (2.0 * mx + 1.0, true) } else { (mx, false) };
+        v.push(Spec { m, minpts, eps, x, mode: EpsMode::Explicit, stream: "minpts_extreme", exact });
+    }
+    // ---- shared_border ----
+    for k in 0..24u64 {
+        let d = 2 + (k % 2) as usize;
+        let m = if k % 3 == 0 { Met::L1 } else { Met::L2 };
+        let h = *r.pick(&[1.0, 0.5, 2.0]);
+        let centres = 2 + r.below(4) as usize;
+        let nsat = 1 + (k / 2 % 2) as usize;
+        let mut x: Vec<Vec<f64>> = Vec::new();
+        for c in 0..centres {
+            let cx = 2.0 * h * c as f64;
+            // shared point first / centre first alternate, so that both visiting orders occur unshuffled
+            if c > 0 && k % 4 >= 2 { x.push(embed(&[cx - h, 0.0], d)); }
+            x.push(embed(&[cx, 0.0], d));
+            for q in 0..nsat {
+                x.push(embed(&[cx, if q == 0 { h } else { -h }], d));
+            }
+            if c > 0 && k % 4 < 2 { x.push(embed(&[cx - h, 0.0], d)); }
+        }
+        if k % 2 == 1 { r.shuffle(&mut x); }
+        let eps = h * *r.pick(&[1.125, 1.25, 1.375]);
+        v.push(Spec { m, minpts: 3 + nsat, eps, x, mode: EpsMode::Explicit, stream: "shared_border", exact: true });
+    }
+    v
+}
+
 fn copt(x: &Option<f64>) -> String {
     match x {
         Some(v) => format!("Some {}", sf64(*v)),
@@ -407,7 +511,7 @@ fn main() {
     let args = parse_args();
     let mut rng = Sm64::new(args.seed);
     let thorough = args.tier == "thorough";
-    let ndatasets = if thorough { 2000 } else { 800 };
+    let ndatasets = if thorough { 2000 } else { 720 };
     let maxn: u64 = if thorough { 40 } else { 30 };
     let mut out = Out::new(&args.out, args.shards, "C08.Corr", "case", args.only);
     let mets = [Met::L2, Met::L2, Met::L1, Met::Linf];
@@ -453,14 +557,19 @@ fn main() {
     }
 
     // ---- point sets ----
-    let corpus = corpus();
+    let mut corpus: Vec<Spec> = corpus().into_iter()
+        .map(|c| Spec { m: c.0, minpts: c.1, eps: c.2, x: c.3, mode: c.4, stream: "corpus", exact: false }).collect();
+    {
+        let mut rt = rng.fork();
+        corpus.extend(targeted(&mut rt));
+    }
     for ds_all in 0..(corpus.len() + ndatasets) {
         let mut r = rng.fork();
         let (fam, d, m, minpts, x, mode, eps, exact, stream): (u64, usize, Met, usize, Vec<Vec<f64>>, EpsMode, f64, bool, &'static str) =
         if ds_all < corpus.len() {
             let c = &corpus[ds_all];
-            let d = if c.3.is_empty() { 1 } else { c.3[0].len() };
-            (99, d, c.0, c.1, c.3.clone(), c.4, c.2, false, "corpus")
+            let d = if c.x.is_empty() { 1 } else { c.x[0].len() };
+            (99, d, c.m, c.minpts, c.x.clone(), c.mode, c.eps, c.exact, c.stream)
         } else {
         let ds_no = ds_all - corpus.len();
         // the first datasets are the exhaustive-small part: every n in 0..=4, every family
@@ -503,6 +612,13 @@ fn main() {
             tags.push("pair_within_4ulp_below_range".into());
             out.bump("pair_within_4ulp_below_range");
         }
+        // the strict / non-strict boundary in computed arithmetic: some pair has its computed reduced distance equal to the computed reduced tolerance
+        if d > 0 && (0..n).any(|i| (0..i).any(|j| rdist_of(m, &x[i], &x[j]) == rr)) {
+            tags.push("pair_on_computed_border".into());
+            out.bump("pair_on_computed_border");
+        }
+        if d > 0 && (0..n).any(|i| (0..i).any(|j| x[i] == x[j])) { out.bump("has_duplicate_points"); }
+        if minpts >= n && n > 0 { out.bump("min_points_ge_n"); }
         let mut runs: Vec<RunOut> = Vec::new();
         let mut failed: Option<String> = None;
         for nnk in 0..3 {
@@ -514,7 +630,7 @@ fn main() {
         out.bump(&format!("stream_{}", stream));
         out.bump(&format!("metric_{}", mname));
         out.bump(&format!("family_{}", fam));
-        out.bump(&format!("min_points_{}", minpts));
+        out.bump(&format!("min_points_{}", if minpts > 5 { "gt5".to_string() } else { minpts.to_string() }));
         out.bump(&format!("dim_{}", d));
         out.bump(&format!("n_{}", if n < 4 { "lt4" } else if n < 12 { "4to11" } else if n < 24 { "12to23" } else { "ge24" }));
         let tagrefs: Vec<&str> = tags.iter().map(|s| s.as_str()).collect();
@@ -563,5 +679,5 @@ fn main() {
         out.case(id, &coq, &tagrefs, &desc, key);
         id += 1;
     }
-    out.finish("point sets from 8 families (chains, rings with a blob, dense blocks joined by bridge points, small lattices with duplicates, stars, gaussian blobs with noise, 1-D integers, lattice at the scale of the default tolerance) x L1/L2/Linf x min_points 2..5 x tolerance strictly between / exactly equal to an inter-point distance / default, each run with LinearSearch, KdTree and BallTree; a case is non-trivial when it has a core point and a border point, noise or a second cluster; distinct = distinct (points, min_points, tolerance, metric) hashes; plus the grid of malformed hyper-parameters");
+    out.finish("point sets from 8 families (chains, rings with a blob, dense blocks joined by bridge points, small lattices with duplicates, stars, gaussian blobs with noise, 1-D integers, lattice at the scale of the default tolerance) x L1/L2/Linf x min_points 2..5 x tolerance strictly between / exactly equal to an inter-point distance / default, each run with LinearSearch, KdTree and BallTree; plus the targeted streams ulp_border (tolerance = a computed distance and its two neighbouring floats), duplicates (copies at distance +0; squared tolerance underflowing to +0), minpts_extreme (min_points 2 / n-1 / n / n+1, tolerance covering everything or equal to the largest distance) and shared_border (chains of one-core-point clusters sharing border points, min_points = the size of an inner centre's neighbourhood); a case is non-trivial when it has a core point and a border point, noise or a second cluster; distinct = distinct (points, min_points, tolerance, metric) hashes; plus the grid of malformed hyper-parameters");
 }
